@@ -270,3 +270,49 @@ Definition mtx (p : list instr) (s : mstate) : mstate * bool :=
 Definition books_ok (holders : list Z) (s : mstate) : bool :=
   (sval STotal (committed s) =? escrow s) &&
   (fold_right (fun a acc => sval (SBal a) (committed s) + acc) 0 holders =? sval STotal (committed s)).
+
+(* ======================================================================================================= *)
+(** PART C: conversions of an externally-owned pair whose token is NOT a FIP20: on a failing transfer it reverts
+    (FRevert), returns false (FFalse), or is a legacy token that reverts on failure and returns no data at all on
+    success (FNothing).  evm keeper ERC20Transfer: the call must not fail, the return data must unpack as a bool
+    (empty data does not) and the bool must be true — otherwise the conversion is refused. *)
+
+Inductive flavor := FRevert | FFalse | FNothing.
+Record lstate := {
+  l_esc : Z;               (* token balance of the erc20 module *)
+  l_sup : Z;               (* bank supply of the pair's coin *)
+  l_tok : list (Z * Z);    (* user -> token balance *)
+  l_coin : list (Z * Z)    (* user -> coin balance *)
+}.
+Fixpoint lget (k : Z) (m : list (Z * Z)) : Z :=
+  match m with [] => 0 | (k', v) :: r => if k =? k' then v else lget k r end.
+
+Inductive lop :=
+| LConvertERC20 (a r x : Z)    (* MsgConvertERC20: sender a (hex), receiver r *)
+| LConvertCoin (a r x : Z).    (* MsgConvertCoin: sender a, receiver r (hex) *)
+
+(* what ERC20Transfer concludes for a transfer that the token would (ok = true) / would not carry out *)
+Definition transfer_accepted (f : flavor) (ok : bool) : bool :=
+  match f, ok with
+  | FNothing, _ => false       (* success returns no data: "failed to unpack transfer"; failure reverts *)
+  | _, true => true
+  | FRevert, false => false    (* the call fails *)
+  | FFalse, false => false     (* returned false: "failed to execute transfer" *)
+  end.
+
+Definition lrun (f : flavor) (o : lop) (s : lstate) : option lstate :=
+  match o with
+  | LConvertERC20 a r x =>
+    if transfer_accepted f (x <=? lget a (l_tok s))
+    then Some {| l_esc := l_esc s + x; l_sup := l_sup s + x; l_tok := (a, lget a (l_tok s) - x) :: l_tok s;
+                 l_coin := (r, lget r (l_coin s) + x) :: l_coin s |}
+    else None
+  | LConvertCoin a r x =>
+    if (x <=? lget a (l_coin s)) && transfer_accepted f (x <=? l_esc s)
+    then let c1 := (a, lget a (l_coin s) - x) :: l_coin s in
+         Some {| l_esc := l_esc s - x; l_sup := l_sup s - x; l_tok := (r, lget r (l_tok s) + x) :: l_tok s; l_coin := c1 |}
+    else None
+  end.
+Definition lstep (f : flavor) (s : lstate) (o : lop) : lstate * bool :=
+  match lrun f o s with Some s' => (s', true) | None => (s, false) end.
+Definition lsteps (f : flavor) (s : lstate) (l : list lop) : lstate := fold_left (fun s o => fst (lstep f s o)) l s.
